@@ -163,6 +163,30 @@ def runtime_cases(rng, n_expr, depth_choices):
                 cases.append((kind, ('C', tx, ('B', op, ('L', tx, v), ('L', 'i32', 1))), (tx, v), tx))
     return cases
 
+def grid_cases():
+    """the search run when a correspondence broke (and always in the thorough tier): every binary operator x every operand type pair
+    x a grid of boundary values per type (0, 1, extremes, and for 64-bit types the values whose low 32 bits are all zero)"""
+    def vals(t):
+        lo, hi = tmin(t), tmax(t)
+        vs = [0, 1, hi, lo, hi - 1]
+        if WIDTH[t] == 64: vs += [1 << 32, (1 << 32) * 3, (1 << 62), hi - (1 << 32) + 1] + ([-(1 << 32), lo + (1 << 32)] if t in SIGNED else [1 << 63, (1 << 64) - (1 << 32)])
+        if WIDTH[t] == 32: vs += [1 << 16, 65535] + ([-1, -65536] if t in SIGNED else [1 << 31])
+        if t in SIGNED and WIDTH[t] < 32: vs += [-1]
+        return sorted(set(v for v in vs if lo <= v <= hi))
+    cases = []
+    for op in BINOPS:
+        for tx in TYPES:
+            for ty in TYPES:
+                for vx in vals(tx):
+                    for vy in (vals(ty) if op not in ('shl', 'shr') else [v for v in (0, 1, 31, 32, 63) if v <= tmax(ty)]):
+                        e = ('B', op, ('L', tx, vx), ('L', ty, vy))
+                        cases.append(('grid', e, e, 'u64'))
+    for op in UNOPS:
+        for tx in TYPES:
+            for vx in vals(tx):
+                e = ('U', op, ('L', tx, vx)); cases.append(('grid', e, e, 'u64'))
+    return cases
+
 def build_runtime_program(cases, specs):
     pool = VarPool()
     fdefs, body, expect, meta = [], [], [], []
@@ -182,6 +206,10 @@ def build_runtime_program(cases, specs):
                         % (CNAME[tc], ev, CNAME[tc], ev, ev, ev, tc, ev, k, ev, ev, ev))
             # truth value of the unconverted expression: the spec value of e itself is needed; encoded by a second query (see caller)
             expect.append(('ctx', u)); meta.append((kind, to_c(e, lit_c), tc, V))
+        elif kind == 'grid':
+            ev = to_c(info, pool.leaf)
+            body.append('  { unsigned long r = (unsigned long)(%s); int c = 0; if (%s) c = 1; printf("%%lu %%d\\n", r, c); }' % (ev, ev))
+            expect.append(('pair', u, 1 if V != 0 else 0)); meta.append((kind, to_c(info, lit_c), tc, V))
         elif kind == 'opassign':
             op, tx, vx, ty, vy = info
             body.append('  { %s x = %s; %s y = %s; unsigned long r = (unsigned long)(x %s= y); printf("%%lu %%lu\\n", r, (unsigned long)x); }'
@@ -284,6 +312,7 @@ def main():
 
     # (b) run-time evaluation in every context against the Coq spec
     cases = runtime_cases(rng, 600 if run.quick() else 5000, [1, 1, 2, 2, 3] if run.quick() else [1, 2, 3, 4, 5])
+    cases += grid_cases()          # also the search for a concrete failing input when a correspondence above broke
     specs = spec_query(MODELRUN, [c[1] for c in cases])
     inner = spec_query(MODELRUN, [c[2] if c[0] == 'ctx' else c[1] for c in cases])
     CH = 350
@@ -313,7 +342,7 @@ def main():
             if depth_of(cases[i][1]) >= 2: nontriv.add(ctext + tc)
             if g != exp:
                 gs, xs = g.split(' '), exp.split(' ')
-                names = ['initializer', 'argument', 'return', 'assignment-value', 'assigned-object', 'if', 'while', '!', '?:', '&&'] if ex[0] == 'ctx' else ['expression-value', 'object-after']
+                names = ['initializer', 'argument', 'return', 'assignment-value', 'assigned-object', 'if', 'while', '!', '?:', '&&'] if ex[0] == 'ctx' else ['expression-value', 'if'] if kind == 'grid' else ['expression-value', 'object-after']
                 where = next((names[q] for q in range(min(len(gs), len(xs))) if gs[q] != xs[q]), 'output')
                 run.violation(dict(kind='runtime-value', context=kind, expression=ctext, converted_to=tc, differs_in=where, got=g, expected=exp,
                                    c11_value=V, meaning=' '.join(names)),
@@ -321,7 +350,7 @@ def main():
         if len(samples) < 3: samples.append({'expression': meta[0][1], 'context': meta[0][0], 'expected': expect[0][1]})
 
     cov = dict(evaluations=evals, distinct_nontrivial=len(nontriv) + ntext,
-               rule='(a) every one-operator function: 16 binary operators x 81 operand type pairs, 4 unary x 9, 81 casts: -S instruction text = proved model; (b) random expression trees (depth 1-%d) over 9 types on volatile operands, each in initializer / argument / return / assignment / if / while / ! / ?: / && contexts, every compound assignment operator x 81 type pairs, ++/-- pre/post x 9 types x boundary values, against the Coq spec (undefined cases filtered by the spec); non-trivial = depth >= 2 or a one-operator text comparison' % (3 if run.quick() else 5),
+               rule='(c) boundary grid: every binary operator x 81 operand type pairs x 4-11 boundary values per operand (0, 1, extremes, multiples of 2^32), every unary operator x 9 types, value and truth value at run time against the Coq spec; (a) every one-operator function: 16 binary operators x 81 operand type pairs, 4 unary x 9, 81 casts: -S instruction text = proved model; (b) random expression trees (depth 1-%d) over 9 types on volatile operands, each in initializer / argument / return / assignment / if / while / ! / ?: / && contexts, every compound assignment operator x 81 type pairs, ++/-- pre/post x 9 types x boundary values, against the Coq spec (undefined cases filtered by the spec); non-trivial = depth >= 2 or a one-operator text comparison' % (3 if run.quick() else 5),
                samples=samples, input_distribution=dist, traces_validated_against_impl=ntext, text_mismatches=len(mism))
     return run.finish(cov,
         ['x86-lite (Model/X86Int.v) is my reading of the Intel SDM for the ~30 integer instructions chibicc emits; it is validated against the CPU only through the run-time programs',
